@@ -49,7 +49,7 @@ def content_rows(asset: str, year: int, content: str, n: int) -> List[Dict[str, 
         rows.append({"table": "in", "timestamp": f"{year}-04-{5 + n % 9:02d} 00:00:00+00:00", "exchange": "X2", "holder": "H1", "transaction_type": "INTEREST",
                      "spot_price": str(140 + year % 100), "crypto_in": "3", "unique_id": f"{asset}-{year}-interest"})
         rows.append({"table": "out", "timestamp": f"{year}-04-{5 + n % 9:02d} 09:00:00+09:00", "exchange": "X1", "holder": "H1", "transaction_type": "SELL",
-                     "spot_price": str(240 + year % 100), "crypto_out_no_fee": "1", "crypto_fee": "0", "unique_id": f"{asset}-{year}-sell0"})
+                     "spot_price": str(240 + year % 100), "crypto_out_no_fee": "1", "crypto_fee": "0", "fiat_fee": "7.5", "unique_id": f"{asset}-{year}-sell0"})  # commission charged in yen
     if content == "late-buy":
         # 21:30 on Dec 31 at -05:00 is already Jan 1 in UTC: the transaction belongs to ITS OWN (local) year
         rows.append({"table": "in", "timestamp": f"{year}-12-31 21:30:00-05:00", "exchange": "X3", "holder": "H1", "transaction_type": "INTEREST",
